@@ -57,8 +57,8 @@ def _strip(e):
 
 
 class Cell:
-    def __init__(self, n, v=None, rel=None, l=None, label=""):
-        self.n, self.v, self.rel, self.l, self.label = n, v, rel, l, label
+    def __init__(self, n, v=None, rel=None, l=None, label="", e=None):
+        self.n, self.v, self.rel, self.l, self.label, self.e = n, v, rel, l, label, e       # e: exponent interval (mpf predicates)
 
 
 class Exec:
@@ -74,7 +74,14 @@ class Exec:
 
     # -- values
     def atom_n(self):
-        return V(self.cell.n[0], self.cell.n[1], ("N",), True)
+        return V(self.cell.n[0], self.cell.n[1], ("N", 1), True)
+
+    def is_abs_n(self, v):
+        """the value equals |n| in this cell (n of definite sign)"""
+        if not v.sym or v.sym[0] != "N":
+            return False
+        lo, hi = self.cell.n
+        return (lo > 0 and v.sym[1] == 1) or (hi < 0 and v.sym[1] == -1)
 
     def atom_l(self):
         lo, hi = self.cell.l if self.cell.l else (1, LMAX)
@@ -98,14 +105,18 @@ class Exec:
             if isinstance(b, dict) and b.get("k") == "var" and b["id"] == self.uid:
                 if e["field"] == "_mp_size":
                     return self.atom_n()
+                if e["field"] == "_mp_exp" and self.cell.e is not None:
+                    return V(self.cell.e[0], self.cell.e[1], ("E",), True)
                 if e["field"] == "_mp_d":
                     return PTR_L
             return TOPV
         if k == "index" or (k == "unop" and e["op"] == "*"):
             base = self.eval(e["base"] if k == "index" else e["e"], env)
             idx = self.eval(e["idx"], env) if k == "index" else const(0)
-            if base is PTR_L and isinstance(idx, V) and idx.lo == idx.hi == 0:
+            if base is PTR_L and isinstance(idx, V) and idx.lo == idx.hi == 0 and self.cell.e is None:
                 return self.atom_l()
+            if base is PTR_L and isinstance(idx, V) and idx.sym == ("TOPIDX",) and self.cell.e is not None:
+                return self.atom_l()                 # the most significant limb of a float: non-zero by the format rules
             return V(0, LMAX) if base is PTR_L else TOPV
         if k == "cast":
             v = self.eval(e["e"], env)
@@ -135,7 +146,7 @@ class Exec:
                 v = self.eval(e["e"], env)
                 if not isinstance(v, V):
                     return TOPV
-                sym = ("V", -v.sym[1]) if v.sym and v.sym[0] == "V" else None
+                sym = (v.sym[0], -v.sym[1]) if v.sym and v.sym[0] in ("V", "N") else None
                 inner = _strip(e["e"])
                 if is_uns(inner.get("ct") or inner.get("t")) and v.hi > 0:
                     # negation in an unsigned type wraps
@@ -163,7 +174,8 @@ class Exec:
                     return TOPV
                 if op == "+":
                     return V(a.lo + b.lo, a.hi + b.hi, None, a.exact and b.lo == b.hi or b.exact and a.lo == a.hi)
-                return V(a.lo - b.hi, a.hi - b.lo, None, a.exact and b.lo == b.hi or b.exact and a.lo == a.hi)
+                sym = ("TOPIDX",) if self.is_abs_n(a) and b.lo == b.hi == 1 else None
+                return V(a.lo - b.hi, a.hi - b.lo, sym, a.exact and b.lo == b.hi or b.exact and a.lo == a.hi)
             if op == "=":
                 return self.eval(e["r"], env)
         if k == "cond":
@@ -175,6 +187,8 @@ class Exec:
             a, b = self.eval(e["a"], env), self.eval(e["b"], env)
             if isinstance(a, V) and isinstance(b, V):
                 return V(min(a.lo, b.lo), max(a.hi, b.hi))
+            if a is PTR_L and b is PTR_L:
+                return PTR_L
             return TOPV
         if k == "call" and e.get("callee") == "__builtin_expect" and e.get("args"):
             return self.eval(e["args"][0], env)
@@ -249,7 +263,7 @@ class Exec:
             return (op == "<=", None)
         if a.lo >= b.hi and op in (">=", "<"):
             return (op == ">=", None)
-        if (a.exact and b.lo == b.hi and a.sym in (("L",), ("N",), None)) or (b.exact and a.lo == a.hi and b.sym in (("L",), ("N",), None)):
+        if (a.exact and b.lo == b.hi and (a.sym is None or a.sym[0] in "LNE")) or (b.exact and a.lo == a.hi and (b.sym is None or b.sym[0] in "LNE")):
             return (None, "split")
         return (None, "unk")
 
@@ -413,6 +427,25 @@ def fits_cells(lo_t, hi_t):
             yield Cell(n, None, None, None, nl), (n == (0, 0))
 
 
+def mpf_fits_cells(lo_t, hi_t):
+    """cells and exact answer of  lo_t <= trunc (f) <= hi_t  for a well-formed float: size n (sign), exponent e, most significant limb l;
+    with e = 1 the integer part is l, with e <= 0 it is 0, with e >= 2 it is at least 2^64"""
+    BIGE = 1 << 40
+    cuts = sorted({1, hi_t + 1, -lo_t + 1, LMAX + 1} - {0})
+    lcl, prev = [], 1
+    for c in cuts[1:]:
+        if c - 1 >= prev:
+            lcl.append((prev, c - 1))
+        prev = c
+    yield Cell((0, 0), None, None, None, "f = 0", e=(0, 0)), True
+    for n, nl in (((-NBIG, -1), "f < 0"), ((1, NBIG), "f > 0")):
+        yield Cell(n, None, None, None, "%s, exponent <= 0" % nl, e=(-BIGE, 0)), True
+        yield Cell(n, None, None, None, "%s, exponent >= 2" % nl, e=(2, BIGE)), False
+        for l in lcl:
+            val = l[0] if n[0] > 0 else -l[0]
+            yield Cell(n, None, None, l, "%s, exponent 1, top limb in [%d, %d]" % (nl, l[0], l[1]), e=(1, 1)), lo_t <= val <= hi_t
+
+
 TARGETS = [
     # (file, function, kind, arguments)
     ("mpz/cmp_ui.c", "__gmpz_cmp_ui", "cmp", dict(signed_v=False, absu=False)),
@@ -424,16 +457,24 @@ TARGETS = [
     ("mpz/fits_ushort.c", "__gmpz_fits_ushort_p", "fits", dict(lo_t=0, hi_t=(1 << 16) - 1)),
     ("mpz/fits_uint.c", "__gmpz_fits_uint_p", "fits", dict(lo_t=0, hi_t=(1 << 32) - 1)),
     ("mpz/fits_ulong.c", "__gmpz_fits_ulong_p", "fits", dict(lo_t=0, hi_t=LMAX)),
+    ("mpf/fits_sshort.c", "__gmpf_fits_sshort_p", "mpf_fits", dict(lo_t=-(1 << 15), hi_t=(1 << 15) - 1)),
+    ("mpf/fits_sint.c", "__gmpf_fits_sint_p", "mpf_fits", dict(lo_t=-(1 << 31), hi_t=(1 << 31) - 1)),
+    ("mpf/fits_slong.c", "__gmpf_fits_slong_p", "mpf_fits", dict(lo_t=-(1 << 63), hi_t=(1 << 63) - 1)),
+    ("mpf/fits_si.c", "__gmpf_fits_si_p", "mpf_fits", dict(lo_t=-(1 << 63), hi_t=(1 << 63) - 1)),
+    ("mpf/fits_ushort.c", "__gmpf_fits_ushort_p", "mpf_fits", dict(lo_t=0, hi_t=(1 << 16) - 1)),
+    ("mpf/fits_uint.c", "__gmpf_fits_uint_p", "mpf_fits", dict(lo_t=0, hi_t=(1 << 32) - 1)),
+    ("mpf/fits_ulong.c", "__gmpf_fits_ulong_p", "mpf_fits", dict(lo_t=0, hi_t=LMAX)),
+    ("mpf/fits_ui.c", "__gmpf_fits_ui_p", "mpf_fits", dict(lo_t=0, hi_t=LMAX)),
 ]
 
 
 def judge(fn, kind, args):
     """-> (cells, proved, undecided, [refutations])"""
     ps = fn["params"]
-    if not ps or "__mpz_struct" not in ps[0].get("ct", ""):
-        raise AnalysisBroken("R-ORDER: %s no longer takes an integer first" % fn["name"])
+    if not ps or ("__mpz_struct" not in ps[0].get("ct", "") and "__mpf_struct" not in ps[0].get("ct", "")):
+        raise AnalysisBroken("R-ORDER: %s no longer takes a number first" % fn["name"])
     vparam = ps[1] if len(ps) > 1 else None
-    cells = list(cmp_cells(**args)) if kind == "cmp" else list(fits_cells(**args))
+    cells = list(cmp_cells(**args)) if kind == "cmp" else list(fits_cells(**args)) if kind == "fits" else list(mpf_fits_cells(**args))
     proved = undecided = 0
     bad = []
     for cell, want in cells:
